@@ -457,6 +457,22 @@ TypeOK ==
 StoredBytes(k) == {VB[v] : v \in stored[k]}
 
 \* GetBytes never returns bytes that were not stored under the key
+\* Put's postcondition, as lintcmd/runner relies on it (writeCache*: `out, _, err := c.Put(h, rs)` and then
+\* `c.OutputFile(out)` is kept as the name of the stored content and read later): a Put that returns
+\* without error leaves the complete content under OutputFile(out).  Claimed for a directory used by
+\* one process (NP = 1: the crash and damage configurations, which is where the replay observes it).
+\* With a second process TLC refutes it (config Q, 21 steps): Put finds an old complete data file and
+\* keeps it (c_verify), a concurrent Trim stat()ed it as old and unlinks it before Put returns - the
+\* Put-side face of the Trim window recorded as a known finding for GetFile.  An action property: it
+\* is about the step in which Put returns; later damage at rest is what the lookup invariants cover.
+PutPostStep ==
+  NP = 1 =>
+  \A p \in Procs :
+    (/\ pr[p].pc # "idle" /\ pr[p].op.kind = "put"
+     /\ pr'[p].pc = "idle" /\ pr'[p].res.kind = "putdone")
+    => LET v == pr[p].op.v IN dname'[v] # 0 /\ dino'[dname'[v]].b = VB[v]
+PutPost == [][PutPostStep]_vars
+
 LookupSoundBytes ==
   \A p \in Procs : (pr[p].op.kind = "getbytes" /\ pr[p].res.kind = "bytes") => pr[p].res.b \in StoredBytes(pr[p].op.k)
 
